@@ -219,7 +219,12 @@ class AttackGraph():
             serialized_attack_steps[ag_node.full_name] =\
                 ag_node.to_dict()
         for attacker in self.attackers:
-            serialized_attackers[attacker.name] = attacker.to_dict()
+            attacker_key = attacker.name
+            while attacker_key in serialized_attackers:
+                # Attacker names are not required to be unique, do not let
+                # one attacker overwrite another one.
+                attacker_key = f'{attacker_key}:{attacker.id}'
+            serialized_attackers[attacker_key] = attacker.to_dict()
         return {
             'attack_steps': serialized_attack_steps,
             'attackers': serialized_attackers,
